@@ -230,12 +230,60 @@ def parse_forwarding(pli, dispatch, generic, seq):
     if re.search(r"impl\s*<[^>]*>\s*Clone\s+for\s+StripedSequence", seq):
         raise ParseError("hand-written impl Clone for StripedSequence")
     facts.append("StripedSequence derives Clone over {alphabet, length, wrap, data} (field-wise copy)")
+    # the getters and Default / AsRef: one-expression bodies
+    for name, pat, txt in (
+            ("len", r"self\s*\.\s*length", "len() = self.length"),
+            ("is_empty", r"self\s*\.\s*length\s*==\s*0", "is_empty() = (self.length == 0)"),
+            ("wrap", r"self\s*\.\s*wrap", "wrap() = self.wrap"),
+            ("matrix", r"&\s*self\s*\.\s*data", "matrix() = &self.data")):
+        fb = _fn_body(inherent, name, "impl StripedSequence")
+        if not re.fullmatch(pat, fb.strip()):
+            raise ParseError("StripedSequence::%s is not `%s`: %r" % (name, txt, fb[:80]))
+        facts.append(txt)
+    body = _impl_body(seq, r"impl\s*<[^>]*>\s*Default\s+for\s+StripedSequence\s*<\s*A\s*,\s*C\s*>\s*\{", "impl Default for StripedSequence")
+    fb = _fn_body(body, "default", "impl Default for StripedSequence")
+    if not re.fullmatch(r"Self\s*::\s*new\s*\(\s*DenseMatrix\s*::\s*new\s*\(\s*0\s*\)\s*,\s*0\s*\)\s*\.\s*unwrap\s*\(\s*\)", fb.strip()):
+        raise ParseError("StripedSequence::default is not Self::new(DenseMatrix::new(0), 0).unwrap(): %r" % fb[:80])
+    facts.append("Default = Self::new(DenseMatrix::new(0), 0).unwrap()  (s_default: no rows, len 0, wrap 0)")
+    for target, pat, txt in (
+            (r"StripedSequence\s*<\s*A\s*,\s*C\s*>", r"self", "AsRef<StripedSequence> = self"),
+            (r"DenseMatrix\s*<\s*A\s*::\s*Symbol\s*,\s*C\s*>", r"&\s*self\s*\.\s*data", "AsRef<DenseMatrix> = &self.data")):
+        body = _impl_body(seq, r"impl\s*<[^>]*>\s*AsRef\s*<\s*" + target + r"\s*>\s*for\s+StripedSequence\s*<\s*A\s*,\s*C\s*>\s*\{",
+                          "impl " + txt.split(" =")[0] + " for StripedSequence")
+        fb = _fn_body(body, "as_ref", txt)
+        if not re.fullmatch(pat, fb.strip()):
+            raise ParseError("%s does not hold: %r" % (txt, fb[:80]))
+        facts.append(txt)
     return facts
+
+
+def parse_sample(seq):
+    """StripedSequence::sample (row count, fill order, new length) and EncodedSequence::sample (take(length))"""
+    STR = r'"[^"]*"'
+    DIST = (r"let\s+symbols\s*=\s*<\s*A\s+as\s+Alphabet\s*>\s*::\s*symbols\s*\(\s*\)\s*;\s*"
+            r"let\s+dist\s*=\s*rand_distr\s*::\s*WeightedAliasIndex\s*::\s*new\s*\(\s*background\s*\.\s*frequencies\s*\(\s*\)\s*\.\s*into\s*\(\s*\)\s*\)\s*"
+            r"\.\s*expect\s*\(\s*" + STR + r"\s*\)\s*;\s*")
+    inherent = _impl_body(seq, r"impl\s*<\s*A\s*:\s*Alphabet\s*,\s*C\s*:\s*PositiveLength\s*>\s*StripedSequence\s*<\s*A\s*,\s*C\s*>\s*\{", "impl StripedSequence")
+    b = _fn_body(inherent, "sample", "impl StripedSequence")
+    m = _match(DIST +
+               r"let\s+mut\s+data\s*=\s*unsafe\s*\{\s*DenseMatrix\s*::\s*uninitialized\s*\(" + E + r"\)\s*\}\s*;\s*"
+               r"for\s+row\s+in\s+data\s*\.\s*iter_mut\s*\(\s*\)\s*\{\s*"
+               r"for\s*\(\s*x\s*,\s*y\s*\)\s*in\s+row\s*\.\s*iter_mut\s*\(\s*\)\s*\.\s*zip\s*\(\s*\(\s*&\s*mut\s+rng\s*\)\s*\.\s*sample_iter\s*\(\s*&\s*dist\s*\)\s*\)\s*\{\s*"
+               r"\*\s*x\s*=\s*symbols\s*\[\s*y\s*\]\s*;\s*\}\s*\}\s*"
+               r"Self\s*::\s*new\s*\(\s*data\s*,\s*" + E + r"\)\s*\.\s*expect\s*\(\s*" + STR + r"\s*\)", b, "StripedSequence::sample")
+    base = ("length", "columns", "extra")
+    d = dict(rows=px(m.group(1), base, "sample rows"), newlen=px(m.group(2), base, "sample new length"))
+    enc = _impl_body(seq, r"impl\s*<\s*A\s*:\s*Alphabet\s*>\s*EncodedSequence\s*<\s*A\s*>\s*\{", "impl EncodedSequence")
+    b = _fn_body(enc, "sample", "impl EncodedSequence")
+    m = _match(DIST + r"rng\s*\.\s*sample_iter\s*\(\s*&\s*dist\s*\)\s*\.\s*take\s*\(" + E + r"\)\s*\.\s*map\s*\(\s*\|\s*i\s*\|\s*symbols\s*\[\s*i\s*\]\s*\)\s*\.\s*collect\s*\(\s*\)",
+               b, "EncodedSequence::sample")
+    d["take"] = px(m.group(1), base, "EncodedSequence::sample take")
+    return d
 
 
 # ------------------------------------------------------------------ rendering
 
-def render(st, si, facts):
+def render(st, si, facts, sm):
     L = []
     A = L.append
     A("(* GENERATED by translate/stripe_pli.py from /repo/lightmotif/src/pli/mod.rs (trait Stripe) -- do not edit;")
@@ -286,6 +334,14 @@ def render(st, si, facts):
     emit("si", "f_col", b4, si["f_col"])
     emit("si", "newlen", b2, si["newlen"])
     A("")
+    A("(* seq.rs StripedSequence::sample: let mut data = unsafe { DenseMatrix::uninitialized(<rows>) };")
+    A("   for row in data.iter_mut() { for (x, y) in row.iter_mut().zip((&mut rng).sample_iter(&dist)) { *x = symbols[y]; } }")
+    A("   Self::new(data, <newlen>).expect(..)      -- every row, left to right, takes the next C draws")
+    A("   seq.rs EncodedSequence::sample: rng.sample_iter(&dist).take(<take>).map(|i| symbols[i]).collect() *)")
+    emit("sm", "rows", b0, sm["rows"])
+    emit("sm", "newlen", b0, sm["newlen"])
+    emit("sm", "take", b0, sm["take"])
+    A("")
     return "\n".join(L)
 
 
@@ -302,7 +358,8 @@ def translate(write=True):
         st = parse_stripe(trait)
         si = parse_stripe_into(trait)
         facts = parse_forwarding(pli, dispatch, generic, seq)
-        text = render(st, si, facts)
+        sm = parse_sample(seq)
+        text = render(st, si, facts, sm)
     except (ParseError, OSError, ValueError) as e:
         errors.append("stripe_pli: cannot parse the source: %s" % e)
         if not os.path.exists(OUT):
